@@ -134,8 +134,18 @@ def from_columns(cols: Dict[str, List[Any]], fw: Type[Any]) -> Any:
     raise TypeError(fw)
 
 
-def add_columns(data: Any, new: Dict[str, List[Any]]) -> Any:
-    """Return `data` extended by the columns `new` in data's own representation (non-destructive where possible)."""
+def add_columns(data: Any, new: Dict[str, List[Any]], inplace: bool = False) -> Any:
+    """Return `data` extended by the columns `new` in data's own representation (non-destructive where possible; with
+    `inplace` a pandas frame / list of dicts is modified in place and returned, as hand-written groups commonly do)."""
+    if inplace and hasattr(data, "columns") and hasattr(data, "assign"):
+        for c, v in new.items():
+            data[c] = v
+        return data
+    if inplace and isinstance(data, list):
+        for i, r in enumerate(data):
+            for c, v in new.items():
+                r[c] = v[i]
+        return data
     if isinstance(data, pa.Table):
         for c, v in new.items():
             if c in data.column_names:
@@ -206,6 +216,7 @@ def make_group(
     domain: Optional[str] = None,
     hooks: Optional[Dict[str, Callable[..., Any]]] = None,
     return_as: Optional[str] = None,
+    inplace: bool = False,
     bases: tuple = (FeatureGroup,),
     extra: Optional[Dict[str, Any]] = None,
 ) -> Type[FeatureGroup]:
@@ -267,7 +278,7 @@ def make_group(
                             new[f"{base}~{k}"] = [None if v is None else v + k for v in vals]
                     else:
                         new[n] = vals
-                result = add_columns(data, new)
+                result = add_columns(data, new, inplace=inplace)
             if "after_calc" in hooks:
                 r2 = hooks["after_calc"](cls, data, features, result)
                 if r2 is not None:
